@@ -195,25 +195,19 @@ def gauss(dim: int, order: Union[int, str]) -> tuple[np.ndarray, np.ndarray]:
                         ],
                     ]
                 ),
-                np.array(
-                    [
-                        (18.0 - np.sqrt(30.0)) / 36.0,
-                        (18.0 + np.sqrt(30.0)) / 36.0,
-                        (18.0 + np.sqrt(30.0)) / 36.0,
-                        (18.0 - np.sqrt(30.0)) / 36.0,
-                        (18.0 - np.sqrt(30.0)) / 36.0,
-                        (18.0 + np.sqrt(30.0)) / 36.0,
-                        (18.0 + np.sqrt(30.0)) / 36.0,
-                        (18.0 - np.sqrt(30.0)) / 36.0,
-                        (18.0 - np.sqrt(30.0)) / 36.0,
-                        (18.0 + np.sqrt(30.0)) / 36.0,
-                        (18.0 + np.sqrt(30.0)) / 36.0,
-                        (18.0 - np.sqrt(30.0)) / 36.0,
-                        (18.0 - np.sqrt(30.0)) / 36.0,
-                        (18.0 + np.sqrt(30.0)) / 36.0,
-                        (18.0 + np.sqrt(30.0)) / 36.0,
-                        (18.0 - np.sqrt(30.0)) / 36.0,
-                    ]
+                # Tensor product of the 1d weights, ordered as the points above
+                np.tile(
+                    np.outer(
+                        [
+                            (18.0 - np.sqrt(30.0)) / 36.0,
+                            (18.0 + np.sqrt(30.0)) / 36.0,
+                        ],
+                        [
+                            (18.0 - np.sqrt(30.0)) / 36.0,
+                            (18.0 + np.sqrt(30.0)) / 36.0,
+                        ],
+                    ).ravel(),
+                    4,
                 ),
             )
         else:
@@ -243,7 +237,7 @@ def gauss(dim: int, order: Union[int, str]) -> tuple[np.ndarray, np.ndarray]:
                     ]
                 ),
                 np.array(
-                    [1.0, 1.0, 1.0, 1.0, 1.0, 1.0, 1.0],
+                    [1.0, 1.0, 1.0, 1.0, 1.0, 1.0, 1.0, 1.0],
                 ),
             )
         elif order == 2:
@@ -293,9 +287,9 @@ def gauss(dim: int, order: Union[int, str]) -> tuple[np.ndarray, np.ndarray]:
                         200.0 / 729.0,
                         320.0 / 729.0,
                         200.0 / 729.0,
-                        125.0 / 729.0,
-                        200.0 / 729.0,
-                        125.0 / 729.0,
+                        320.0 / 729.0,
+                        512.0 / 729.0,
+                        320.0 / 729.0,
                         200.0 / 729.0,
                         320.0 / 729.0,
                         200.0 / 729.0,
